@@ -39,6 +39,8 @@ func c11Maps(prefix string, thorough bool) []http.Header {
 	out = append(out, http.Header{k2: {"r", "s", "r", "r"}, kb: {connect.EncodeBinaryHeader([]byte{1, 2}), connect.EncodeBinaryHeader([]byte{1, 2})}})
 	// a key shared by all carriers: merged views must keep every carrier's values
 	out = append(out, http.Header{"X-Shared": {prefix + "-shared-1", prefix + "-shared-2"}, k1: {c11Values[0]}})
+	// keys that merely look like entity headers
+	out = append(out, http.Header{"Content-Language": {"en", "de"}, "Content-Disposition": {"inline"}, k1: {c11Values[0]}})
 	if thorough {
 		for i := range c11Values {
 			out = append(out, http.Header{k2: {c11Values[i], c11Values[(i+3)%len(c11Values)]}})
